@@ -266,7 +266,15 @@ class Unit:
         mask = code_mask(body)
         ob = next_code(body, mask, 0, '{')
         if ob < 0:
-            return 'pub ' + body.lstrip().removeprefix('pub ').lstrip()
+            # tuple struct: make positional fields pub (D5)
+            b = body.lstrip().removeprefix('pub ').lstrip()
+            mt = re.match(r'(struct\s+\w+\s*(?:<[^>]*>)?\s*)\((.*)\)\s*;\s*$', b, re.S)
+            if mt:
+                flds = [f.strip() for f in mt.group(2).split(',') if f.strip()]
+                flds = [f if f.startswith('pub') else 'pub ' + f for f in flds]
+                log.append(dict(rule='D5', before=norm_ws(b), after='positional fields made pub'))
+                return 'pub %s(%s);' % (mt.group(1), ', '.join(flds))
+            return 'pub ' + b
         cb = match_close(body, mask, ob)
         header = body[:ob].strip()
         if not header.startswith('pub'):
@@ -421,6 +429,7 @@ class Unit:
             text = R.r1_erase_ctor(text, log)
         if 'R2' in rules:
             text = R.r2_ref_patterns(text, log)
+            text = R.r2_some_ref(text, log)
             text = R.r2_closure_params(text, log)
         if kv.get('r9'):
             text = R.r9_iter(text, log, kv['r9'].split(';'))
